@@ -182,6 +182,15 @@ def higher_order_guards(ctx, rep, rule: str) -> None:
     last_x = max((n.lineno for n in A.walk_no_nested(fi.node) if isinstance(n, ast.Assign) and any(isinstance(t, ast.Name) and t.id == xname for t in n.targets)), default=0)
     ok = ok and nan[0].ast.lineno > last_x
     rep.ob(rule, "nan-inf-guard-after-last-X", ok, fi.loc(nan[0].ast) if nan else fi.loc(), f"the NaN/Inf test of `{xname}` follows its last assignment and dominates the return")
+    # fractional roots: after the residual has been checked, X is raised to the root's denominator — exactly once
+    qdefs = [n for n in A.walk_no_nested(fi.node) if isinstance(n, ast.Assign) and isinstance(n.targets[0], ast.Name) and _norm(n.value) == "root.denominator"]
+    qname = qdefs[0].targets[0].id if len(qdefs) == 1 else None
+    after = [n for n in A.walk_no_nested(fi.node) if isinstance(n, (ast.Assign, ast.AugAssign)) and te and n.lineno > te[0].lineno and any(isinstance(t, ast.Name) and t.id == xname for t in (n.targets if isinstance(n, ast.Assign) else [n.target]))]
+    ok = qname is not None and len(after) == 1 and isinstance(after[0], ast.Assign) and _norm(after[0].value) == f"torch.linalg.matrix_power({xname}, {qname})"
+    if ok:
+        conds = [(t.ast.test, lab) for t, lab in cfg.branch_conditions(cfg.node_of(after[0])) if t.kind == "test" and qname in A.names_in(t.ast.test)]
+        ok = all(_norm(t) in (f"{qname} > 1", f"{qname} != 1", f"{qname} >= 2") and lab == "T" for t, lab in conds)
+    rep.ob(rule, "fractional-root-powering-is-X^q", ok, fi.loc(after[0]) if after else fi.loc(), f"for a root p/q the result of the coupled iteration (≈ A^(-1/p)) must be raised to exactly q = root.denominator by one matrix_power({xname}, {qname}); found {[_norm(n)[:60] for n in after]}", sample=True)
     # tf32 restore in finally
     tries = [n for n in A.walk_no_nested(fi.node) if isinstance(n, ast.Try)]
     ok = len(tries) == 1 and bool(tries[0].finalbody) and "allow_tf32 = tf32_flag" in _norm(ast.Module(body=tries[0].finalbody, type_ignores=[]))
